@@ -293,7 +293,7 @@ impl Check for C16 {
         vec!["the relaxed PageTracker flag and the try_lock eviction in the striped write buffer are exercised only by free-running cases; no memory-model exploration".into()]
     }
     fn plan(&self, tier: Tier) -> Plan {
-        Plan { cases: tier.pick(400, 20_000), max_recs: 90, max_shrink_iters: 300, workers: 8 }
+        Plan { cases: tier.pick(1_600, 60_000), max_recs: 90, max_shrink_iters: 300, workers: 8 }
     }
     fn run(&self, tape: &Tape, want_sample: bool) -> Result<CaseOut, Failure> {
         let (o, r) = run_case(tape);
